@@ -455,7 +455,7 @@ func (doc *T) derefRequestBody(r RequestBody, refNameResolver RefNameResolver, p
 func (doc *T) derefPaths(paths map[string]*PathItem, refNameResolver RefNameResolver, parentIsExternal bool) {
 	for _, name := range componentNames(paths) {
 		ops := paths[name]
-		if ops == nil {
+		if ops == nil || doc.isVisitedPathItem(ops) {
 			continue
 		}
 		pathIsExternal := isExternalRef(ops.Ref, parentIsExternal)
